@@ -138,6 +138,49 @@ theorem translated_system_snapshot {U : List Entry} {L : List Log} (r : TReach U
   have I := T.inv l hl
   exact translated_snapshot I ho (fun e he => T.uNe e (I.inU e he))
 
+/-- **C01 on the generated code**: two replicas of a state reachable by the translated operations that hold the same
+    hashes — whatever the order, grouping or repetition of the merges that brought them there — show, through the
+    translated `ToSnapshot`, the same set of heads and, under an ordering that is a strict total order on those
+    entries, the identical sequence of values -/
+theorem translated_convergence {U : List Entry} {L : List Log} (r : TReach U L) {a b : Log} (ha : a ∈ L) (hb : b ∈ L)
+    (hH : ∀ h, h ∈ hashes a.entries ↔ h ∈ hashes b.entries) (hsf : a.sortFn = b.sortFn)
+    (ho : OrderOk a.sortFn a.entries) :
+    ∃ hs₁ hs₂ vs,
+      Generated.Go.toSnapshot (traverseFuel a.entries a.heads) a.entries (before a.sortFn) a.heads = some (hs₁, vs) ∧
+      Generated.Go.toSnapshot (traverseFuel b.entries b.heads) b.entries (before b.sortFn) b.heads = some (hs₂, vs) ∧
+      (∀ h, h ∈ hs₁ ↔ h ∈ hs₂) := by
+  have T := treach_inv r
+  have Ia := T.inv a ha
+  have Ib := T.inv b hb
+  have hE : ∀ x, x ∈ a.entries ↔ x ∈ b.entries := by
+    intro x
+    constructor
+    · intro hx
+      have : x.hash ∈ hashes b.entries := (hH _).mp (List.mem_map.mpr ⟨x, hx, rfl⟩)
+      obtain ⟨y, hy, hyh⟩ := List.mem_map.mp this
+      have : y = x := eq_of_hash_eq T.uNodup (Ib.inU y hy) (Ia.inU x hx) hyh
+      exact this ▸ hy
+    · intro hx
+      have : x.hash ∈ hashes a.entries := (hH _).mpr (List.mem_map.mpr ⟨x, hx, rfl⟩)
+      obtain ⟨y, hy, hyh⟩ := List.mem_map.mp this
+      have : y = x := eq_of_hash_eq T.uNodup (Ia.inU y hy) (Ib.inU x hx) hyh
+      exact this ▸ hy
+  have hperm : a.entries.Perm b.entries :=
+    (List.perm_ext_iff_of_nodup (nodup_of_hashes_nodup Ia.nodup) (nodup_of_hashes_nodup Ib.nodup)).mpr hE
+  have hv := values_fn_of_set Ia Ib hsf ho hperm
+  have hheads := heads_fn_of_set Ia Ib hE
+  have ea : ∀ e ∈ a.entries, e.hash ≠ [] := fun e he => T.uNe e (Ia.inU e he)
+  have eb : ∀ e ∈ b.entries, e.hash ≠ [] := fun e he => T.uNe e (Ib.inU e he)
+  refine ⟨hashes a.heads, hashes b.heads, values a,
+    toSnapshot_eq a ea (fun e he => ea e (Ia.headsIn e he)), ?_, ?_⟩
+  · rw [hv]; exact toSnapshot_eq b eb (fun e he => eb e (Ib.headsIn e he))
+  · intro h
+    unfold hashes
+    simp only [List.mem_map]
+    constructor
+    · rintro ⟨x, hx, rfl⟩; exact ⟨x, (hheads x).mp hx, rfl⟩
+    · rintro ⟨x, hx, rfl⟩; exact ⟨x, (hheads x).mpr hx, rfl⟩
+
 /-- progress: in a reachable state the translated `Append` of any replica (ordering a strict total order on its
     entries, any pointer count, a fresh non-empty CID) returns, and its result is reachable -/
 theorem treach_can_append {U : List Entry} {L : List Log} (r : TReach U L) {i : Nat} {l : Log} (hl : L[i]? = some l)
